@@ -1042,6 +1042,26 @@ fn ipc_boundary_cuts(bytes: &[u8]) -> Vec<usize> {
     cuts.sort(); cuts.dedup();
     cuts
 }
+/// the extracted IPC model keeps sizes in unary: only streams whose every size prefix (including a
+/// trailing, incomplete message) is small are used for the model correspondence
+fn ipc_sizes_small(input: &[u8]) -> bool {
+    let mut pos = 0usize;
+    loop {
+        if input.len() - pos < 4 { return true; }
+        let mut w: [u8; 4] = input[pos..pos + 4].try_into().unwrap();
+        pos += 4;
+        if w == [0xff; 4] { if input.len() - pos < 4 { return true; } w = input[pos..pos + 4].try_into().unwrap(); pos += 4; }
+        let size = u32::from_le_bytes(w) as usize;
+        if size == 0 { return true; }
+        if size > 65535 { return false; }
+        if input.len() - pos < size { return true; }
+        let bl = match arrow_ipc::root_as_message(&input[pos..pos + size]) { Ok(m) => m.bodyLength(), Err(_) => return true };
+        pos += size;
+        if bl < 0 || bl > 65535 { return false; }
+        if input.len() - pos < bl as usize { return true; }
+        pos += bl as usize;
+    }
+}
 fn gen_ipc_model(tier: &str, r: &mut Rng, emit: &mut dyn FnMut(Case), count: usize) {
     // all boundary truncations of two streams (one with, one without the EOS marker)
     for with_eos in [true, false] {
@@ -1064,7 +1084,9 @@ fn gen_ipc_model(tier: &str, r: &mut Rng, emit: &mut dyn FnMut(Case), count: usi
         let kind = r.below(6);
         match kind {
             0 => { let k = r.below(bytes.len() + 1); bytes.truncate(k); }
-            1 => bytes.extend({ let k = 1 + r.below(6); r.bytes(k) }),
+            // junk only after a complete EOS: junk directly after a message would be read as a size prefix
+            // of up to 2^32 - 1, which the extracted model represents in unary
+            1 => if with_eos { bytes.extend({ let k = 1 + r.below(6); r.bytes(k) }) },
             2 => { let (b2, _) = ipc_stream(r, true); if with_eos && r.bool() { bytes.truncate(bytes.len() - 8); } bytes.extend(b2); }
             3 => { // drop the schema message: the first batch arrives without a schema
                 let f = walk_ipc(&bytes);
@@ -1073,6 +1095,7 @@ fn gen_ipc_model(tier: &str, r: &mut Rng, emit: &mut dyn FnMut(Case), count: usi
             _ => {}
         }
         if kind == 5 { let cuts = ipc_boundary_cuts(&bytes); if !cuts.is_empty() { let k = *r.pick(&cuts); bytes.truncate(k); } }
+        if !ipc_sizes_small(&bytes) { continue; }
         let frames = walk_ipc(&bytes);
         let oracle: Vec<BigInt> = frames.iter().flat_map(|f| [BigInt::from(f.valid as u8), BigInt::from(f.body_len.max(0)), BigInt::from(f.kind), BigInt::from(f.rows)]).collect();
         let n = bytes.len();
